@@ -54,12 +54,16 @@ func c02Set(cfg int) *Set {
 	case 4:
 		// (a comment delimiter that starts with the action delimiter would be ambiguous)
 		return NewSet(l, WithDelims("{", "}"), WithCommentDelims("<#", "#>"))
+	case 5: // left and right delimiters of different lengths
+		return NewSet(l, WithDelims("<%=", "%>"))
+	case 6:
+		return NewSet(l, WithDelims("${", "}"), WithCommentDelims("<!--", "-->"))
 	}
 	return NewSet(l)
 }
 
-var c02Left = []string{"{{", "[[", "<%", "[[[", "{"}
-var c02Right = []string{"}}", "]]", "%>", "]]]", "}"}
+var c02Left = []string{"{{", "[[", "<%", "[[[", "{", "<%=", "${"}
+var c02Right = []string{"}}", "]]", "%>", "]]]", "}", "%>", "}"}
 
 // H_C02_action: "{{" + N arbitrary bytes [+ "}}"] with the default delimiters: Parse is
 // total. N = 2 (quick) / 3 (thorough).
@@ -278,6 +282,11 @@ func H_C02_structural() {
 		"{{ '" + f + " }}",
 		"{{ x " + f,
 		"{{ f(" + f + " }}",
+		"{{block b()}}a{{content}}" + f + "{{content}}c",
+		"{{if x}}{{block b()}}a{{content}}" + f + "{{content}}c{{end}}",
+		"{{yield b() content}}" + f,
+		"{{try}}" + f + "{{catch}}c",
+		"{{range x}}" + f + "{{else}}e",
 	}
 	// the same mistakes under custom delimiters whose first bytes differ from the comment's
 	// (configuration 3: "[[[ ]]]" with the default comment markers "{* *}")
@@ -324,5 +333,28 @@ func H_C02_refgraph() {
 	t, err := set.GetTemplate("/a.jet")
 	vfReach("returned")
 	vfAssert(err != nil || (t != nil && t.Root != nil), "a usable template or an error")
+	vfAssert(vfLive() == 0, "no goroutine is left running")
+}
+
+// H_C02_repeat: GetTemplate of a template with a syntax error - directly or through a
+// template that extends / imports / includes it - reports the error on every call, not
+// only the first (a failed parse is never handed out as a usable template).
+//
+//gosym:reach checked
+func H_C02_repeat() {
+	via := ndChoice("via", 3)
+	n := ndChoice("calls", 3) + 1
+	l := NewInMemLoader()
+	l.Set("/broken.jet", "a{{ if }}b")
+	l.Set("/ext.jet", `{{ extends "/broken.jet" }}`)
+	l.Set("/imp.jet", `{{ import "/broken.jet" }}x`)
+	set := NewSet(l)
+	names := []string{"/broken.jet", "/ext.jet", "/imp.jet"}
+	for k := 0; k < n; k++ {
+		t, err := set.GetTemplate(names[via])
+		vfAssert(err != nil || (t != nil && t.Root != nil), "a usable template or an error")
+		vfAssert(err != nil, "the syntax error is reported on every call")
+	}
+	vfReach("checked")
 	vfAssert(vfLive() == 0, "no goroutine is left running")
 }
